@@ -439,12 +439,12 @@ Qed.
 Lemma run_subtable_paired : forall ng d s p p', run_subtable ng d s p = Ok p' ->
   exists b0 b1 ops amb,
     maybe_reverse (sub_reverse d s) (p_buf p) = Ok b0 /\
-    apply_subtable (ms_kind s) ng None b0 (p_ops p) = Ok (b1, ops, amb) /\
+    apply_subtable (ms_kind s) ng None (p_ecap p) b0 (p_ops p) = Ok (b1, ops, amb) /\
     maybe_reverse (sub_reverse d s) b1 = Ok (p_buf p').
 Proof.
   intros ng d s p p' H. unfold run_subtable, run_subtable_g in H.
   destruct (maybe_reverse (sub_reverse d s) (p_buf p)) as [b0|] eqn:E0; cbn in H; [|discriminate].
-  destruct (apply_subtable (ms_kind s) ng None b0 (p_ops p)) as [[[b1 ops] amb]|] eqn:E1; cbn in H; [|discriminate].
+  destruct (apply_subtable (ms_kind s) ng None (p_ecap p) b0 (p_ops p)) as [[[b1 ops] amb]|] eqn:E1; cbn in H; [|discriminate].
   destruct (maybe_reverse (sub_reverse d s) b1) as [b2|] eqn:E2; cbn in H; [|discriminate].
   inversion H; subst p'. cbn. exists b0, b1, ops, amb. auto.
 Qed.
